@@ -16,7 +16,7 @@ Definition insync (rs : cstate) (v : view) : Prop :=
               end) /\
   (forall g, mget g (v_groups v) = mget g (pipeline_groups rs)) /\
   (forall n, mget n (v_connectors v) = mget n (connectors rs)) /\
-  v_policy v = scaling_policy rs.
+  match scaling_policy rs with Some p => v_policy v = Some p | None => True end.
 
 (* equality of views as maps *)
 Definition veq (a b : view) : Prop :=
@@ -35,7 +35,7 @@ Qed.
 Lemma sync_fixpoint : forall rs v, insync rs v -> veq (sync rs v) v.
 Proof.
   intros rs v (Hw & Hg & Hc & Hp). unfold veq, sync. cbn [v_workers v_groups v_connectors v_policy].
-  repeat split; auto.
+  repeat split; auto; [|destruct (scaling_policy rs); auto].
   intros id. rewrite (mget_map_val (fun k e => merge_worker (mget k (v_workers v)) e)).
   specialize (Hw id). destruct (mget id (workers rs)) as [e|], (mget id (v_workers v)) as [w|]; cbn [option_map]; try contradiction; auto.
   destruct Hw as [Ha Hs]. destruct w as [st asg]. cbn [vw_assigned vw_status] in *. unfold merge_worker. cbn [vw_status vw_assigned].
@@ -104,7 +104,7 @@ Proof.
     + rewrite !mget_mremove_other by exact Hne. apply Hc.
   - (* policy *)
     unfold insync. cbn [workers set_policy pipeline_groups connectors scaling_policy v_workers with_policy v_groups v_connectors v_policy].
-    repeat split; auto.
+    repeat split; auto. destruct p; auto.
 Qed.
 
 Lemma replicated_deltas_insync : forall ds rs v,
